@@ -40,13 +40,19 @@ VBatch(e) ==
       stale(d) == LET i == <<d.svc, d.key>> IN
                   i \in DOMAIN S.store /\ S.store[i].present /\ S.store[i].seq.k = "int"
                   /\ ~(d.seq.k = "int" /\ d.seq.n > S.store[i].seq.n)
-  IN IF ~ObsInDomain(S, e.store) THEN V("C34_Attribution_unknown_index", S)
+  IN IF ~("nostore" \in DOMAIN e /\ e.nostore) /\ ~ObsInDomain(S, e.store) THEN V("C34_Attribution_unknown_index", S)
+     \* while the cache file cannot be written the client may fail to tell its subscribers (what it has accepted it remembers
+     \* all the same): fewer deliveries than the Spec's are tolerated for that batch, other deliveries are not
+     ELSE IF "cachewrite" \in DOMAIN e /\ e.cachewrite = "fails" /\ (\A n \in DOMAIN out : \E j \in DOMAIN r.out : out[n] = r.out[j])
+          THEN V("", r.S)
      ELSE IF out # r.out THEN
           (IF \E n \in DOMAIN out : ~backed(out[n]) THEN V("C34_Authentic", S)
            ELSE IF \E n \in DOMAIN out : ~attributed(out[n]) THEN V("C34_Attribution", S)
            ELSE IF IsStrictPrefix(out, r.out) THEN V("C34_BatchIndependent", S)
            ELSE IF \E n \in DOMAIN out : stale(out[n]) THEN V("C34_Monotone", S)
            ELSE V("C34_deliveries_differ", S))
+     \* (nostore: the cache file could not be written during this history - it is not looked at; the deliveries are)
+     ELSE IF "nostore" \in DOMAIN e /\ e.nostore THEN V("", r.S)
      ELSE LET T == [S EXCEPT !.store = ObsStore(S, e.store)] IN
           IF T # r.S THEN
              (IF ~MonotoneStep(S, T) THEN V("C34_Monotone_store", S)
